@@ -29,6 +29,13 @@ pub struct StorageEngine {
     
     /// Background expiration thread handle
     expiration_handle: Option<thread::JoinHandle<()>>,
+    
+    /// Keys removed because their time to live had elapsed (lazy path and sweeper), in removal order, for the
+    /// append-only file: an expiry changes the dataset like a DEL, so it has to be in the log (see `take_expired_keys`)
+    expired_log: std::sync::Mutex<Vec<(DatabaseIndex, Key)>>,
+    
+    /// Is anybody draining `expired_log`? (only then are removals recorded)
+    track_expired: std::sync::atomic::AtomicBool,
 }
 
 /// A single database with sharded storage
@@ -148,6 +155,8 @@ impl StorageEngine {
             databases,
             memory_manager: Arc::new(memory_manager),
             expiration_handle: None,
+            expired_log: std::sync::Mutex::new(Vec::new()),
+            track_expired: std::sync::atomic::AtomicBool::new(false),
         });
         
         // Start expiration cleanup thread
@@ -157,6 +166,29 @@ impl StorageEngine {
         });
         
         engine
+    }
+    
+    /// Start (or stop) recording the keys that are removed because their time to live elapsed
+    pub fn track_expired_keys(&self, on: bool) {
+        self.track_expired.store(on, std::sync::atomic::Ordering::SeqCst);
+        if !on {
+            self.expired_log.lock().unwrap().clear();
+        }
+    }
+    
+    /// The keys removed by expiry since the last call, in removal order
+    pub fn take_expired_keys(&self) -> Vec<(DatabaseIndex, Key)> {
+        if !self.track_expired.load(std::sync::atomic::Ordering::SeqCst) {
+            return Vec::new();
+        }
+        std::mem::take(&mut *self.expired_log.lock().unwrap())
+    }
+    
+    /// A key has just been removed because its deadline had passed
+    fn note_expired(&self, db: DatabaseIndex, key: &[u8]) {
+        if self.track_expired.load(std::sync::atomic::Ordering::SeqCst) {
+            self.expired_log.lock().unwrap().push((db, key.to_vec()));
+        }
     }
     
     /// Calculate shard index for a key using deterministic hash function
@@ -191,6 +223,7 @@ impl StorageEngine {
                     shard_guard.mark_modified(key);
                     let memory_size = self.calculate_value_size(key, &stored_value.value);
                     self.memory_manager.remove_memory(memory_size);
+                    self.note_expired(db, key);
                 }
             }
         }
@@ -328,6 +361,7 @@ impl StorageEngine {
                     // Remove expired key
                     shard_guard.data.remove(key);
                     shard_guard.expiring_keys.remove(key);
+                    self.note_expired(db, key);
                     Ok(GetResult::Expired)
                 } else {
                     // Return value without touch() - matches Valkey's noeviction config
@@ -2453,6 +2487,7 @@ impl StorageEngine {
                 shard_guard.mark_modified(key);
                 let memory_size = self.calculate_value_size(key, &stored_value.value);
                 self.memory_manager.remove_memory(memory_size);
+                self.note_expired(db, key);
             }
         }
         
@@ -2772,7 +2807,7 @@ impl StorageEngine {
             #[cfg(feature = "verif")]
             crate::verif::sweeper_wait_while_paused();
             
-            for database in &engine.databases {
+            for (db_index, database) in engine.databases.iter().enumerate() {
                 let now = Instant::now();
                 
                 // Check each shard for expired keys
@@ -2812,6 +2847,7 @@ impl StorageEngine {
                                         // Update memory usage
                                         let memory_size = engine.calculate_value_size(&key, &stored_value.value);
                                         engine.memory_manager.remove_memory(memory_size);
+                                        engine.note_expired(db_index, &key);
                                     }
                                 }
                                 // the deadline was moved: keep the index in step with it
